@@ -25,6 +25,8 @@ struct Universe {
     n: u32,
     terms: Vec<Term>,
     eqs: Vec<(usize, usize)>,
+    #[serde(default)]
+    base: Vec<usize>,
 }
 
 #[derive(Deserialize, Clone)]
@@ -176,6 +178,23 @@ impl<'a> PathRun<'a> {
         let mut prev_progress = progress_of(&eg);
         let mut final_fp = None;
 
+        // the universe's base terms (parents etc.) are inserted up front, in either order
+        {
+            let mut base = ctx.uni.base.clone();
+            if path.first().map(|p| p.1).unwrap_or(false) { base.reverse(); }
+            for t in base {
+                let ex = self.pool_exprs[t - 1].clone();
+                match guard(|| eg.add_expr(ex)) {
+                    Ok(h) => handles.push((ctx.pool_ui[t - 1], h)),
+                    Err(p) => {
+                        self.stats.panics += 1;
+                        self.finding("C08", "panic in add_expr", &full_key, path, 0, &site_key(&p),
+                            json!({"msg": p.msg, "term": ctx.uni.terms[t-1].show()}));
+                        return None;
+                    }
+                }
+            }
+        }
         if self.mode == "eager" {
             // insert every term of the final state first (order: as they appear along the path)
             for (e, flip) in path {
@@ -339,6 +358,7 @@ impl<'a> PathRun<'a> {
             let is_final = step + 1 == path.len();
             let lazy = self.mode == "lazy" || is_final;
             self.compare(spec, &obs, &eg, &key, path, step + 1, lazy);
+            self.handles_sound(spec, &obs, &eg, &handles, &key, path, step + 1);
             self.check_analysis(spec, &obs, &eg, &key, path, step + 1);
             if is_final {
                 final_fp = Some(self.fingerprint(&obs, &eg));
@@ -349,6 +369,29 @@ impl<'a> PathRun<'a> {
             prev_obs = Some(obs);
         }
         final_fp
+    }
+
+    /// C01 for invocations returned EARLIER: an old handle of term t may compare equal to the
+    /// current invocation of term u only if t and u are congruent in the specification.
+    fn handles_sound<N: AnKind>(&mut self, spec: &SpecObs, obs: &ImplObs, eg: &EGraph<T, N>, handles: &[(usize, AppliedId)],
+                                key: &[usize], path: &[(usize, bool)], step: usize) {
+        let ctx = self.ctx;
+        let mut reps: Vec<usize> = Vec::new(); // first member of every implementation class
+        let mut seen = std::collections::BTreeSet::new();
+        for i in 0..ctx.us.len() {
+            if obs.cls[i] != 0 && spec.lab[i] != 0 && seen.insert(obs.cls[i]) { reps.push(i); }
+        }
+        for (ui, h) in handles {
+            if spec.lab[*ui] == 0 { continue; }
+            for i in &reps {
+                let f = obs.found[*i].clone().unwrap();
+                if guard(|| eg.eq(h, &f)).unwrap_or(false) && spec.lab[*ui] != spec.lab[*i] {
+                    self.finding("C01", "an earlier invocation compares equal to a term its own term is not congruent to", key, path, step, "",
+                        json!({"handle_of": ctx.us[*ui].show(), "equal_to": ctx.us[*i].show()}));
+                    return;
+                }
+            }
+        }
     }
 
     fn fingerprint<N: AnKind>(&self, obs: &ImplObs, eg: &EGraph<T, N>) -> Fingerprint {
